@@ -296,6 +296,7 @@ E2E_INNER = ["hx_select_e2e::sel::alpha", "hx_select_e2e::sel::alpha::beta", "hx
              "hx_select_e2e::sel::r#type::r#loop", "hx_select_e2e::sel::no_args", "hx_select_e2e::sel::Grp::sub::x"]
 E2E_WORDS = ["top", "a", "b", "alpha", "beta", "Grp", "grp", "sub", "1", "10", "i32", "u8", "loop", "type", "renamed", "orig", "x",
              "with_args", "args", "gen", "sel", "opt", "inherit", "zzz", "no_args"]
+E2E_DEGENERATE = ["", "", "^", "$", ".*", "^$", "hx_select_e2e::sel::top", "hx_select_e2e"]
 E2E_REGEX = ["::a$", "^hx_select_e2e::sel::[a-z]+$", "::[0-9]+$", "alpha|Grp", "top$", "(i32|u8)::", "::b::", "^sel", "sel::.*::a", "r#",
              "gen_(ty|const)", "::1", "::1$", "beta::[ab]$", "[A-Z]", ".", "^$", "e2e::sel::t"]
 
@@ -307,6 +308,10 @@ def gen_e2e(rng, k):
 
     def text(is_exact):
         r = rng.random()
+        if rng.random() < 0.12:
+            # the empty string and other degenerate patterns: as a regex they match every path (a positive one
+            # narrows nothing, a skip deselects everything); exact, they match no path (or exactly one)
+            return rng.choice(E2E_DEGENERATE)
         if is_exact:
             return rng.choice(E2E_CASES) if r < 0.6 else rng.choice(E2E_INNER) if r < 0.85 else rng.choice(E2E_WORDS)
         if r < 0.25:
